@@ -125,3 +125,45 @@ func VX_C06_JSONUnpackBytes(args []int) {
 	vxAssert(w.off <= n, "[C06] never consumed more than was sent")
 	vxCover("c06.json.end")
 }
+
+func init() { vxRegister("VX_C05_JSONRetained", VX_C05_JSONRetained) }
+
+// VX_C05_JSONRetained: three frames back to back are decoded into three
+// messages that stay alive (as in a session whose handlers are still running
+// while the next frame is read): after all three are decoded, each still holds
+// exactly what was packed. args: n (symbolic bytes in the first method)
+func VX_C05_JSONRetained(args []int) {
+	vxPoolMode(1)
+	sym := vxBytes("sym", args[0])
+	vxTextClass(sym)
+	methods := []string{"/alpha/" + string(sym), "/beta/second_one", "/gamma/third_reply_x"}
+	bodies := []string{"first-body", "2nd", "the third body"}
+	w := &vxJBuf{}
+	pf := NewJSONProtoFunc()
+	pw := pf(w)
+	for k := range methods {
+		m := socket.NewMessage()
+		m.SetSeq(int32(10 + k))
+		m.SetMtype(erpc.TypeCall)
+		m.SetBodyCodec('s')
+		m.SetServiceMethod(methods[k])
+		m.SetBody([]byte(bodies[k]))
+		m.Meta().Add("k", "v"+methods[k])
+		vxAssume(pw.Pack(m) == nil)
+	}
+	pr := pf(w)
+	var got []socket.Message
+	for range methods {
+		g := socket.NewMessage(socket.WithNewBody(func(socket.Header) interface{} { return new([]byte) }))
+		vxAssert(pr.Unpack(g) == nil, "frame decodes")
+		got = append(got, g)
+	}
+	for k, g := range got {
+		vxAssert(g.Seq() == int32(10+k) && g.Mtype() == erpc.TypeCall && g.BodyCodec() == 's', "retained message keeps its seq/type/codec")
+		vxAssert(g.ServiceMethod() == methods[k], "retained message keeps its service method after later frames were decoded")
+		vxAssert(string(g.Meta().Peek("k")) == "v"+methods[k], "retained message keeps its metadata")
+		vxAssert(string(*(g.Body().(*[]byte))) == bodies[k], "retained message keeps its body")
+	}
+	vxAssert(w.off == len(w.data), "stream consumed exactly")
+	vxCover("c05.json.retained")
+}
